@@ -696,3 +696,30 @@ def t2b_claims_recursion_complete(prog):
             if bad:
                 r.viol('T2b', 'Claims::%s/tail-not-visited' % f.name, f.loc(), 'a path through Claims::%s for (Claim, C) returns without processing the tail of the two lists: the claims of every later column are dropped' % f.name)
     return r
+
+
+@rule('L2', props=['C14'], floor=3, configs=('all', 'default'))
+def l2_world_results_borrow_world(prog):
+    """Every public method of World that takes `&self`/`&mut self` and whose signature declares lifetime
+    parameters of its own (query, par_query, view_resources, ...) ties them to the receiver: the receiver is
+    `&'a (mut) self` for one of those lifetimes. A named lifetime that only occurs in the result and its bounds
+    is chosen freely by the caller, so the result would not keep the world borrowed and two conflicting
+    results (or a result and a structural mutation) could be alive together in safe code."""
+    r = Result()
+    for f in prog.fns.values():
+        if not (f.path.startswith('world::World::<Registry, Resources>::') and f.kind == 'AssocFn' and f.d.get('vis') == 'pub'):
+            continue
+        ins = f.d.get('inputs') or []
+        if not ins or ins[0].get('k') != 'ref':
+            continue
+        imp = f.impl
+        own = {g['name'] for g in (imp['generics'] if imp else []) if g['kind'] == 'lifetime'}
+        meth = [g['name'] for g in f.d['generics'] if g['kind'] == 'lifetime' and g['name'] not in own]
+        out = f.d.get('output') or {}
+        if not meth or (out.get('k') == 'tuple' and not out.get('e')):
+            continue      # nothing is returned that could outlive the borrow
+        r.inst('World::%s<%s>(&%s self)' % (f.name, ', '.join(meth), ins[0].get('r')))
+        if ins[0].get('r') not in meth:
+            r.viol('L2', 'World::%s/result-not-tied-to-receiver' % f.name, f.loc(),
+                   'World::%s declares the lifetime(s) %s for its result but takes `&%s self`: the result does not keep the world borrowed' % (f.name, ', '.join(meth), ins[0].get('r')))
+    return r
